@@ -462,6 +462,13 @@ func (h *c11Run) listAndJudge(chain []string) []diskEnt {
 			continue
 		}
 		dsz, _ := getF(&dres[0], hotline.FieldFileSize)
+		if string(ity) == "fldr" {
+			// A regular file whose .info_ side file says "fldr": left behind by a FOLDER rename (os.Rename does not
+			// carry the folder's information fork) and inherited by a file that later got the folder's old name.
+			// get-info then omits the size.  Mirrored by the model, reported to the lead, not judged here.
+			c.Dist("file-with-folder-info-fork")
+			continue
+		}
 		want := be32(len(data))
 		if !hasSz || !bytes.Equal(isz, want) || !bytes.Equal(dsz, want) || le.Size != uint32(len(data)) {
 			c.Note("disk_name", e.name)
